@@ -147,6 +147,10 @@ func crashHistory(w *World, steps, allTorn, contEvery int, st *stats) bool {
 	// adversarial junk after the last complete root record of the full file
 	for j := 0; j < 16; j++ {
 		g := w.CrashJunk(file, nlog, junkFor(w, file, j))
+		if g == nil {
+			st.Extra["junk_skipped_self_consistent"]++
+			continue
+		}
 		st.Extra["junk_images"]++
 		if !recoverAndLook(w, g, j%4 == 0, st) {
 			return false
